@@ -67,7 +67,7 @@ def _two_turns(t_start, gap, step, same_text, sched=False):
     if sched:
         # scheduler on with a pop budget that binds: the turn yields at the T1 boundary (budget-driven, clock-independent)
         over["scheduler"] = {"enabled": True, "quantum_ms": 10 ** 9, "budgets": {"t1_pops": 2, "wall_ms": 10 ** 9}}
-    cfg = W.make_cfg(over)
+    cfg = W.make_cfg(over, memo=("c01", True if sched else False))
     clk = Clock(t_start, step)
     state = W.make_state()
     state["_cache_mgr"] = CacheManager(max_entries=64, ttl_sec=600, time_fn=clk.time)
